@@ -15,7 +15,7 @@ CONSTANTS
   DelLo = {1, 3}
   DelHi = {3, 7}
   MaxPend = 2
-  AllowKF = {"KF-C20-1", "KF-C20-2", "KF-C20-3"}
+  AllowKF = {"KF-C20-1", "KF-C20-2", "KF-C20-3", "KF-C20-4"}
   KFInitOpts = FALSE
   KFV1Hist = FALSE
   MaxOps = 9
